@@ -2,6 +2,12 @@
 and the signature function that labels a failing case for known_findings.jsonl."""
 
 PROPS = {
+    'C16': {
+        'families': [('c16', 100, 1000)],
+        'rule': 'sessions of Put/Has/Get/Finalize on blockstore.ReadWrite (real file, faults injected through the verif write hook) and storage.StorageCar (in-memory file whose WriteAt fails on demand), where one write call of a Put (length prefix, CID or data) or of Finalize (any of its index/header writes) returns an error after 0, a quarter, half, three quarters or all of its bytes; followed by a random continuation, a clean Finalize, the file bytes and the real Inspect(true)/VerifyCar verdicts; distinct = distinct script text',
+        'trusted': ['the output can be truncated (os.File, or a WriterAt with Truncate); a plain stream cannot be repaired and is closed on failure'],
+        'assumptions': ['faults are transient write errors / short writes reported by the writer (not silent corruption)'],
+    },
     'C20': {
         'families': [('c20', 80, 800)],
         'rule': 'random sequences of OnPut registrations (plain / once-only), Has, Put, Close (incl. repeated Close and calls after Close) over path and stream targets x CARv1/CARv2 options; after EVERY step: the bytes on the stream or the existence and bytes of the file, the call result and the list of callbacks fired; distinct = distinct script text',
@@ -94,6 +100,10 @@ def signature(pid, script, I, S):
         if 'flip' in toks:
             return 'C02/corruption-not-reported'
         return 'C02/unsound-block-returned'
+    if pid == 'C16':
+        if 'fail' in toks:
+            return 'C16/' + fam + '-with-failed-write-misreported'
+        return 'C16/' + fam + '-after-failed-write-differs'
     if pid == 'C20':
         return 'C20/' + fam + '-differs-from-lazy-direct-writer'
     if pid == 'C06':
